@@ -569,7 +569,7 @@ func TestC14Codec(t *testing.T) {
 		rep.Sample(8, cases[i].describe(lat))
 	}
 	if nSingles < 50 || nPairs < 1000 {
-		core.HarnessError("vacuous lattice")
+		rep.Vacuous("vacuous lattice")
 	}
 	os.RemoveAll(dir) // Finish exits the process; deferred calls do not run
 	rep.Finish()
